@@ -551,8 +551,7 @@ def treatAs (tb : Tables) (xsd11 : Bool) (t : Ty) (v : List Item) : Except Err (
 A name is a number `100 * n + local`.  In a *node* `n` is the namespace of its expanded QName (0 = no namespace,
 1, 2 = two namespace URIs); in a *name test as written* `n` is the prefix (0 = unprefixed, 1 = `p:`, 2 = `q:`).
 `Ty.resolve` turns the lexical names of the kind tests into expanded names with the statically known namespaces of
-the parser, as `get_expanded_name(name, parser.namespaces)` (sequence_types.py l.378, with the `fix:` of branch
-fix-c18-3 for attribute tests) and the name-test tokens do.  It does not enter typed function tests: their texts
+the parser, as `get_expanded_name(name, parser.namespaces)` (sequence_types.py l.376-381) and the name-test tokens do.  It does not enter typed function tests: their texts
 are compared as texts by `is_sequence_type_restriction`. -/
 
 /-- statically known namespaces of the parser: the default element namespace and the bindings of `p` / `q`
@@ -590,21 +589,6 @@ def Ty.resolve (cfg : NsCfg) : Ty → Ty
   | .func a r => .func a r
   | .map k v o => .map k (v.resolve cfg) o
   | .array m o => .array (m.resolve cfg) o
-
-/-- trigger of F18n (repaired on branch fix-c18-3): an attribute name test that is prefixed (the kind-test token of
-`instance of` compared the lexical `p:x` with the expanded name) or unprefixed while a default element namespace
-is declared (`match_sequence_type` expanded it with the default namespace) -/
-def Leaf.attrNs (cfg : NsCfg) : Leaf → Bool
-  | .kind .attribute (.name n) => n ≥ 100 || cfg.dflt != 0
-  | .kindT .attribute (.name n) _ _ => n ≥ 100 || cfg.dflt != 0
-  | _ => false
-
-def Ty.trigF18n (cfg : NsCfg) : Ty → Bool
-  | .empty => false
-  | .leaf l _ => l.attrNs cfg
-  | .func _ _ => false
-  | .map _ v _ => v.trigF18n cfg
-  | .array m _ => m.trigF18n cfg
 
 /-- the empty configuration (no default namespace, no prefixes): lexical names of unprefixed tests are the
 expanded names -/
